@@ -48,7 +48,7 @@ Scr(x) == ((x % P) * (x % P) + 3 * (x % P) + 7) % P
 Hash(seed, f, i, k) == Scr(Scr(7919 * seed + 4733 * f + 3571 * i + 2909 * k) + seed)
 HPos(seed, f, i, k, L) == (Hash(seed, f, i, k) % (2 * L)) - (L \div 2)
 HTypes(seed, n, K) == [i \in 1..n |-> IF i <= K THEN i ELSE 1 + (Scr(seed + 31 * i) % K)]
-Reps == IF Tier = "quick" THEN 2 ELSE 12
+Reps == IF Tier = "quick" THEN 1 ELSE 12
 NHash == 2 * 2 * 4 * 3 * 2 * 3 * Reps
 HashConfig(s) ==
   LET ni == s % 2
